@@ -49,6 +49,7 @@ def generator_model(repo):
         raise AnalysisError(f"{CLS}.firstlast: expected one while loop, found {len(loops)} (generator restructured)")
     lp = loops[0]
     pre = fi.node.body[: fi.node.body.index(lp)]
+    nothing_after = fi.node.body.index(lp) == len(fi.node.body) - 1
     facts = _facts()
     ev0 = Evaluator(facts=facts, resolve=_resolver(repo, fi))
     sx0 = SymExec(ev0, on_undecided="havoc")
@@ -70,7 +71,8 @@ def generator_model(repo):
                 raise AnalysisError("firstlast yields something other than a (first, last) pair")
             yielded = (ev.ev(v.elts[0]), ev.ev(v.elts[1]))
             order.append("yield")
-        elif isinstance(s, ast.If) and any(isinstance(b, ast.Break) for b in s.body):
+        elif isinstance(s, ast.If) and any(isinstance(b, ast.Break) or (isinstance(b, ast.Return) and b.value is None and nothing_after) for b in s.body):
+            # `return` ends a generator like `break` does when nothing follows the loop
             cmp_ = s.test
             if isinstance(cmp_, ast.Compare) and len(cmp_.ops) == 1:
                 break_test = (ev.ev(cmp_.left), type(cmp_.ops[0]).__name__, ev.ev(cmp_.comparators[0]))
